@@ -13,6 +13,7 @@ from . import common as C
 
 
 def run_one(scn: dict, timeout: float = 90) -> list[dict]:
+    timeout = max(timeout, float(scn.get('timeout', 60)) + 30)
     d = tempfile.mkdtemp(prefix='verif_scn_')
     p = Path(d) / 'scn.json'
     p.write_text(json.dumps(scn))
